@@ -491,7 +491,7 @@ def stale_stats(case, out):
                 kind, hdr, body = wire.decode_packet(bytes.fromhex(d["bytes"]))
             except Exception:
                 kind = None
-            if kind == "delta":
+            if kind == "delta" and all(b"node_id" in h and all(b"version" in e and b"key" in e for e in es) for h, es in body):
                 dst = next((i for i, nd in enumerate(case["nodes"]) if nd["addr"] == d["dst"].encode("latin-1").hex()), None)
                 for h, es in body:
                     v = views.get((dst, h[b"node_id"].hex()))
